@@ -75,7 +75,28 @@ def cases(draw, tier="quick"):
         b = min(n, a + draw(st.integers(1, n)))
         labels = [None if a <= i < b and i != 0 else x for i, x in enumerate(labels)]
     vals = draw(st.lists(st.integers(0, 3), min_size=n, max_size=n))
-    return {"dt": dt, "func": func, "dtype": draw(st.sampled_from(REQ_DTYPES)), "fill": fill, "data": {"v": vals, "by": labels}}
+    data = {"v": vals, "by": labels}
+    if draw(st.booleans()):
+        # a leading batch dimension, chunked on its own (the announced chunk grid then has two axes to be truthful about)
+        k = draw(st.integers(1, 4))
+        data["batch"] = k
+        data["bchunks"] = draw(compositions(k))
+    if draw(st.integers(0, 3)) == 0 and None not in labels:
+        data["bydask"] = True  # chunked labels (+ expected_groups): the labels' values are unknown while the metadata is announced
+    if draw(st.integers(0, 3)) == 0 and None not in labels:
+        data["by2"] = draw(st.lists(st.integers(0, 1), min_size=n, max_size=n))  # second grouper: two trailing group axes
+    data["nsplit"] = draw(compositions(n))
+    return {"dt": dt, "func": func, "dtype": draw(st.sampled_from(REQ_DTYPES)), "fill": fill, "data": data}
+
+
+@st.composite
+def compositions(draw, n):
+    out, left = [], n
+    while left > 0:
+        c = draw(st.integers(1, left))
+        out.append(c)
+        left -= c
+    return out
 
 
 def strategy(tier):
@@ -132,15 +153,20 @@ def build(case):
         arr = v.astype(np.int64).astype(dt)
     else:
         arr = v.astype(dt)
+    d = case.get("data")
+    if isinstance(d, dict) and d.get("batch"):
+        arr = np.stack([np.roll(arr, i) for i in range(d["batch"])])
     return arr, by
 
 
-def plans(n, labels):
+def plans(n, labels, nsplit=None):
     half = n // 2 or 1
     out = [("eager", e, None) for e in ENGINES]
     chunkings = [[n], [half, n - half] if n > 1 else [n]]
     if n == 12:
         chunkings = [[n], [4, 4, 4]]
+    if nsplit and list(nsplit) not in chunkings:
+        chunkings.append(list(nsplit))
     for chunks in chunkings:
         for method, reindex in (("map-reduce", True), ("map-reduce", False), ("cohorts", None), ("blockwise", None), (None, None)):
             out.append(("chunked", (method, reindex), chunks))
@@ -164,18 +190,35 @@ def execute(case) -> Outcome:
     if case.get("dtype") is not None:
         kw["dtype"] = np.dtype(case["dtype"])
     present = sorted(set(x for x in by.tolist() if x == x))
+    d = case["data"] if isinstance(case.get("data"), dict) else {}
+    bys = [by]
+    if d.get("by2"):
+        by2 = np.array(d["by2"])
+        bys.append(by2)
+        out.label("two-groupers")
     if case.get("fill") is not None:
         kw["fill_value"] = unnum(case["fill"])
         kw["expected_groups"] = np.array(present + [max(present) + 5])
+    elif d.get("bydask"):
+        kw["expected_groups"] = np.array(present)
+    if len(bys) == 2:
+        eg2 = np.array(sorted(set(d["by2"])))
+        kw["expected_groups"] = (kw["expected_groups"], eg2) if "expected_groups" in kw else ((np.array(present), eg2) if d.get("bydask") else None)
+        if kw["expected_groups"] is None:
+            del kw["expected_groups"]
+    if d.get("batch"):
+        out.label("batch-dim")
+    if d.get("bydask"):
+        out.label("dask-labels")
     want = numpy_table(case["dt"], func, case.get("dtype"), case.get("fill"))
     out.label(f"func={func}", f"dt={case['dt']}", f"req={case.get('dtype')}", f"fill={case.get('fill')}")
     seen = {}
     cell = f"dt={case['dt']},func={func},dtype={case.get('dtype')},fill={case.get('fill')}"
     boolfill = np.dtype(case["dt"]).kind == "b" and case.get("fill") is not None and func in (
         "max", "min", "nanmax", "nanmin", "first", "last", "nanfirst", "nanlast")  # fmt: skip
-    for kind, spec, chunks in plans(arr.shape[0], by):
+    for kind, spec, chunks in plans(arr.shape[-1], by, d.get("nsplit")):
         if kind == "eager":
-            r = run(lambda: groupby_reduce(arr, by, engine=spec, **kw)[0])
+            r = run(lambda: groupby_reduce(arr, *bys, engine=spec, **kw)[0])
             label = f"eager/engine={spec}"
         else:
             method, reindex = spec
@@ -184,7 +227,9 @@ def execute(case) -> Outcome:
                 extra["method"] = method
             if reindex is not None:
                 extra["reindex"] = reindex
-            r = run(lambda: groupby_reduce(da.from_array(arr, chunks=(tuple(chunks),)), by, **kw, **extra)[0])
+            achunks = (tuple(chunks),) if arr.ndim == 1 else (tuple(d["bchunks"]), tuple(chunks))
+            cbys = [da.from_array(b, chunks=(tuple(chunks),)) for b in bys] if d.get("bydask") else bys
+            r = run(lambda: groupby_reduce(da.from_array(arr, chunks=achunks), *cbys, **kw, **extra)[0])
             label = f"chunked/method={method}/reindex={reindex}/nblocks={len(chunks)}"
         if r.kind == "refusal":
             out.label("refusal")
